@@ -84,8 +84,11 @@ def gen_value(r, depth=0):
     if c < .86:
         try: return frozenset(e for e in elems if not isinstance(e, (list, dict, set)))
         except TypeError: return tuple(elems)
-    if c < .96: return dict(('k%d' % i, e) for i, e in enumerate(elems))
-    if c < .985: return dict((i, e) for i, e in enumerate(elems)) if elems else {}
+    # (dict keys are inserted in a shuffled order: rounding must keep every value under its own key)
+    if c < .96:
+        items = [('k%d' % i, e) for i, e in enumerate(elems)]; r.shuffle(items); return dict(items)
+    if c < .985:
+        items = [(i, e) for i, e in enumerate(elems)]; r.shuffle(items); return dict(items)
     return range(r.randrange(4))
 
 
@@ -237,12 +240,14 @@ def cache_job(a):
                 x = base + r.choice([0, 0.004, 0.04, 0.4, -0.004, 1e-9] if not eqtypes else [0, 0, 0, 0.004])
                 if eqtypes and x == base and r.random() < .5: x = int(x) if r.random() < .7 or base != 1.0 else True
                 if r.random() < .3 and (kmk != 'raw' or mod == 'safe'): x = [x, r.choice([1, 'a', 2.55])] if r.random() < .5 else {'q': x}
-                form = r.choice(['pos', 'kw', 'default', 'extra', 'spelled'] if not eqtypes else ['pos', 'pos', 'pos', 'default'])
+                form = r.choice(['pos', 'kw', 'default', 'extra', 'spelled', 'owntol', 'owntol'] if not eqtypes else ['pos', 'pos', 'pos', 'default'])
                 calls.append((form, x))
                 if form == 'default' and r.random() < .5: calls.append(('spelled', x))     # the same call with the default written out
             keys, viol = [], []
             for form, x in calls:
-                args, kw = {'pos': ((x, 0.5), {}), 'kw': ((), {'x': x, 'y': 0.5}), 'default': ((x,), {}), 'spelled': ((x, 0.25), {}), 'extra': ((x, 0.5, 1.26), {'z': 2.345})}[form]
+                args, kw = {'pos': ((x, 0.5), {}), 'kw': ((), {'x': x, 'y': 0.5}), 'default': ((x,), {}), 'spelled': ((x, 0.25), {}), 'extra': ((x, 0.5, 1.26), {'z': 2.345}),
+                            # the function's OWN keywords called tol / deep / keymap: they are arguments like any other
+                            'owntol': ((x, 0.5), {'tol': r.choice([4, 7, 7]), 'deep': r.choice([0, 1])})}[form]
                 n0 = len(SEEN)
                 if kmk == 'raw' and isinstance(x, (list, dict)):
                     # safe decorator, raw keymap, unhashable argument: the key is unusable and the wrapper must fall back to
@@ -296,7 +301,8 @@ def cache_job(a):
                     passed_y = len(args) > 1 or 'y' in kw
                     bound = dict(x=orr(args[0] if args else kw['x']),
                                  y=orr(args[1] if len(args) > 1 else kw['y']) if passed_y else 0.25,      # (a default left implicit enters the key as it is)
-                                 rest=tuple(orr(e) for e in args[2:]), z=orr(kw['z']) if 'z' in kw else '<none>')
+                                 rest=tuple(orr(e) for e in args[2:]), z=orr(kw['z']) if 'z' in kw else '<none>',
+                                 own=sorted((n, orr(v)) for n, v in kw.items() if n in ('tol', 'deep')))
                     ob = canon(bound)
                     keys.append((repr(kk), ob, (args, kw), form, x))
                 except Exception as e:
@@ -318,6 +324,25 @@ def cache_job(a):
                                          msg='%s.%s(tol=%r, deep=%r, %s): target(%r) and target(%r, 0.25) bind the same values (y=0.25 is the default) but get keys %.120s and %.120s' % (
                                              mod, nm, tol, deep, kmk, keys[i][4], keys[i][4], keys[i][0], keys[j2][0])))
                         break
+            # C18 on a callable whose signature cannot be inspected (a builtin): key()/lookup() must not evaluate it either
+            if (k + ci) % 3 == 1:
+                it = iter(range(1000))
+                gb = D(**{k_: v_ for k_, v_ in kwd.items() if k_ not in ('keymap', 'tol', 'deep')}, keymap=keymap())(next)      # (no rounding: an iterator is not a value to round)
+                try:
+                    kb = gb.key(it)
+                    try: gb.lookup(it)
+                    except KeyError: pass
+                    first = next(it)
+                    if first != 0:
+                        viol.append(dict(prop='C18', sig=dict(kind='key-or-lookup-evaluates-the-function', dec='%s.%s' % (mod, nm), builtin=True),
+                                         msg='%s.%s over the builtin next: key()/lookup() consumed %d item(s) of the iterator' % (mod, nm, first)))
+                    got = gb(it)
+                    if got != first + 1 or repr(gb.key(it)) != repr(kb):
+                        viol.append(dict(prop='C18', sig=dict(kind='builtin-key-unstable', dec='%s.%s' % (mod, nm), builtin=True),
+                                         msg='%s.%s over the builtin next: call returned %r (expected %r), key %r then %r' % (mod, nm, got, first + 1, kb, gb.key(it))))
+                except Exception as e:
+                    viol.append(dict(prop='C18', sig=dict(kind='builtin-key-raises', dec='%s.%s' % (mod, nm), exc=type(e).__name__, builtin=True),
+                                     msg='%s.%s over the builtin next: %s: %s' % (mod, nm, type(e).__name__, e)))
             out.append(dict(cfg=dict(dec='%s.%s' % (mod, nm), tol=tol, deep=deep, keymap=kmk, calls=repr(calls)[:300]), viol=viol, n=len(calls)))
         except Exception:
             out.append(dict(err=traceback.format_exc()[-800:]))
